@@ -565,10 +565,25 @@ class ObjRun:
             ctx.count("c01_values")
             if np.isfinite(ref) and not close(got, ref, 1e-9):
                 ctx.violate("C01", "wrong_value", sg, got=got, expected=ref, repetition=rep)
-                return
+                break
             for n in pn:                       # update the same array objects in place
                 live[n] *= 1.0 + 0.01 * (rep + 1)
         ctx.hit("values_updated_in_place")
+        # C11: the evaluations above must not have changed what the object returns later - also at a point whose value
+        # equals the current content of the re-used buffers (fresh arrays), compared with a twin that never saw them
+        try:
+            tw, _G = self.twin_of(o)
+            fresh = {n: np.array(live[n], copy=True) for n in pn}
+            a = float(np.ravel(o.obj.logd(**fresh))[0])
+            b = float(np.ravel(tw.logd(**{n: np.array(live[n], copy=True) for n in pn}))[0])
+        except core.SimCrash:
+            raise
+        except Exception:
+            return
+        if not self.fault_fired and np.isfinite(b) and not close(a, b, 1e-9):
+            ctx.violate("C11", "signature_differs_from_twin",
+                        {"engine": "objhist", "obj_class": type(o.obj).__name__, "key": "logd_at_value_of_reused_buffer",
+                         "root": o.root.split(":")[0], "after": "inplace", "derived": bool(o.path)}, got=a, twin=b)
 
     def op_unnamed(self, op):
         """Originals created WITHOUT name= (CUQIpy then infers the name from the caller's variable names), conditioned
